@@ -1332,6 +1332,29 @@ pub fn run() {
         c.sample_n(3, || json!({"family": "random-circuits", "index": i, "circuit": circ_json(&circ)}));
     });
 
+    // (i-d) sizes far above the random family: 65-300 qubits, 100-2500 gates (the comparison
+    // is structural, so size costs nothing)
+    let n_big = t.pick(300usize, 30_000usize);
+    par_cases("large-circuits", n_big, move |r, i| {
+        let nq = *r.pick(&[7usize, 33, 65, 70, 129, 300]);
+        let depth = *r.pick(&[100usize, 260, 1030, 2500]);
+        let mut p = CircParams::unitary(nq, depth, PhPool::Float);
+        p.min_qubits = nq.max(3) - 2;
+        p.pp = false;
+        p.ancilla = r.chance(0.3);
+        p.measure = false;
+        let mut circ = gen_circuit(r, &p);
+        redraw_phases(r, &mut circ);
+        let how = Build::draw(r, circ.gates.len());
+        let via_file = r.chance(0.3);
+        let ok = check_roundtrip_as("large-circuits", i, &circ, true, how, via_file);
+        let c = ctx();
+        c.count(if ok { "large:ok" } else { "large:bad" }, 1);
+        c.maximum("max_gates", circ.gates.len() as u64);
+        c.maximum("max_qubits", circ.n as u64);
+        c.case("large-circuits", Some(circ_hash(&circ)));
+    });
+
     // (ii) generated texts
     let n_text = t.pick(30_000usize, 6_000_000usize);
     par_cases("generated-texts", n_text, move |r, i| {
